@@ -98,7 +98,7 @@ def classify_ref(a: dict) -> str:
 
 def _classify(a: dict) -> str:
     has_node = contains(a, lambda x: x["k"] == "node")
-    has_mut = contains(a, lambda x: x["k"] in ("list", "dict", "set"))
+    has_mut = contains(a, lambda x: x["k"] in ("list", "dict", "set") or (x["k"] == "scalar" and x["n"] == "bytearray"))
     if not has_node:
         return "rejected" if has_mut else "property"
     top = strip_newtype(a)
@@ -368,6 +368,7 @@ def st_annotation(max_depth: int = 3, allow_forward: bool = True, allow_rejected
             st.tuples(inner, st.sampled_from([1, 1, "doc", 2.5])).map(lambda t: {"k": "annotated", "of": t[0], "meta": t[1]}),
         ]
         if allow_rejected:
+            opts.append(st.just({"k": "scalar", "n": "bytearray"}))  # a mutable sequence that looks like a scalar
             # optional node types inside tuples, with None at every position of the union and in both
             # spellings (rejected whatever the order of the members)
             nodes2 = st.lists(nodes, min_size=1, max_size=2)
